@@ -22,7 +22,7 @@ import (
 	"verif/recovery"
 )
 
-var mode = crashcheck.Mode{CheckAcked: true, Depth: 1, Conformance: true, Loader: 1}
+var mode = crashcheck.Mode{CheckAcked: true, Depth: 1, Conformance: true, Loader: 1, WriterOpenOnDefault: true}
 
 func run(opts verifmc.Options, param string) (*verifmc.Sched, *explore.Result) {
 	sc := crashcheck.Scenarios[param]
